@@ -1,6 +1,6 @@
 (* ReparseCalm.v — which written lines are written the same again: fusing text runs is invisible to the
    writer; a structural sufficient condition ([calm], [gcalm]) for the byte-level fixpoint of ReparseText.v. *)
-From IweV Require Import Str Text Ast RelPath Arena Project SectionsSpec Check_Norm NormFacts BuilderFacts
+From IweV Require Import Str Text Ast RelPath RelPathLaws Arena Project SectionsSpec Check_Norm NormFacts BuilderFacts
   SectionsFacts HistoryText Reparse ReparseFacts ReparseText.
 From Coq Require Import Lia.
 Local Open Scope string_scope.
@@ -172,6 +172,21 @@ Section Calm.
   Definition key_kept (w url : string) : bool :=
     is_ref_url w && is_ref_url (from_rel_link_url w dir) &&
     String.eqb (to_rel_link_url (key_name (from_rel_link_url w dir)) dir) url.
+
+  (* every url the projector writes for a note link is kept: [url] = the path of the key K = [from_rel_link_url u dir]
+     relative to [dir], written with the extension `.md` or none, is read back as K (RelPathLaws.C15_rewrite_written)
+     and K is written as [url] again - as long as the written text and K read as note urls *)
+  Lemma key_kept_written u ext :
+    ext = MD \/ ext = "" ->
+    let K := from_rel_link_url u dir in
+    let url := to_rel_link_url K dir in
+    is_ref_url (ref_url url ext) = true -> is_ref_url K = true ->
+    key_kept (ref_url url ext) url = true.
+  Proof.
+    intros He K url H1 H2. unfold key_kept, key_name. rewrite H1.
+    pose proof (C15_rewrite_written u dir ext He) as E. cbv zeta in E. fold K in E. fold url in E.
+    rewrite E, H2. cbn [andb]. apply String.eqb_refl.
+  Qed.
 
   (* a wiki link is written `[[wiki_url url]]` *)
   Definition url_kept (url : string) : bool :=
